@@ -54,6 +54,15 @@ class Interp:
                 self.obligations.append(o)
         st.assume(goal)
 
+    def canary(self, st, kind, where=""):
+        """vacuity guard: `pc => False` must NOT be provable for at least one path of each kind"""
+        if self.dry:
+            return
+        f = st.frame.funcqual if getattr(st, "frame", None) else ""
+        o = Obligation(f"{f}::{kind}@{where}#{len(self.obligations)}", st.pc, z3.BoolVal(False), kind, where,
+                       func=self.verifying or f, clause=kind)
+        self.obligations.append(o)
+
     def may_raise(self, st, cond, cls, msg="", where=None):
         """Fork on a raising condition.  Returns (list of exceptional outcomes, ok-state or None)."""
         c = z3.simplify(cond) if z3.is_expr(cond) else z3.BoolVal(bool(cond))
@@ -702,6 +711,7 @@ class Interp:
         head = self.fork(h)
         exits, backs, others = self.loop_body_once(node, h, kind, info)
         for b in backs:
+            self.canary(b, f"canary-loop{ordn}", wh)
             for inv in invs:
                 g = self.specs.eval_invariant(self, contract, inv, b, node, info)
                 self.oblige(b, g, "inv-preserve", inv, wh)
